@@ -152,3 +152,71 @@ Theorem scalar_mul_abel : forall F k Rm x,
   ex_RInt (los F x) 0 (sqrt (Rm * Rm - x * x)) ->
   k * Abel F Rm x = Abel (fun t => k * F t) Rm x.
 Proof. intros. symmetry. apply Abel_scal; auto. Qed.
+
+(* ---- scaling by a number: __imul__, __mul__, __rmul__, __itruediv__, __truediv__
+   (polynomial.py:49-80; PiecewisePolynomial.__imul__ 272-281 scales every piece) ---- *)
+Definition vscaleR := vscale R Rmult.
+
+Lemma nth_vscale : forall k l i, nth i (vscaleR k l) 0 = k * nth i l 0.
+Proof.
+  intros. unfold vscaleR, vscale. replace 0 with (k * 0) at 1 by ring. apply (map_nth (Rmult k)).
+Qed.
+
+Lemma vscale_length : forall k l, length (vscaleR k l) = length l.
+Proof. intros. apply map_length. Qed.
+
+(* division is multiplication by 1/a; dividing and multiplying back is the identity *)
+Lemma vscale_div : forall a l i, a <> 0 -> nth i (vscaleR (1 / a) l) 0 = nth i l 0 / a.
+Proof. intros. rewrite nth_vscale. field. auto. Qed.
+
+Lemma vscale_roundtrip : forall a l, a <> 0 -> vscaleR a (vscaleR (1 / a) l) = l.
+Proof.
+  intros. unfold vscaleR, vscale. rewrite map_map. rewrite <- (map_id l) at 2.
+  apply map_ext. intros. field. auto.
+Qed.
+
+(* scaled object: whole func/abel and every piece, as PiecewisePolynomial.__imul__ does *)
+Definition scaled_pieces (k : R) (r : list R) (ps : list piece) : list (list R * list R) :=
+  map (fun p => (vscaleR k (poly_funcR r (q_rmin p) (q_rmax p) (q_c p) (q_r0 p) (q_s p) (q_red p)),
+                 vscaleR k (poly_abelR r (q_rmin p) (q_rmax p) (q_c p) (q_r0 p) (q_s p) (q_red p)))) ps.
+
+Lemma nth_map_any : forall (A B : Type) (f : A -> B) (l : list A) (j : nat) (d : A) (d' : B),
+  (j < length l)%nat -> nth j (map f l) d' = f (nth j l d).
+Proof. induction l; intros; simpl in *; [lia|]. destruct j; auto. apply IHl. lia. Qed.
+
+Section Scaled.
+Variables (r : list R) (Rm : R).
+Hypothesis Hasc : ascending r.
+Hypothesis Hpos : forall j, (j < length r)%nat -> 0 <= nth j r 0.
+
+(* k * object is the pair of the function k * f: whole object *)
+Theorem scaled_whole : forall k ps i, List.Forall (piece_ok Rm) ps -> (i < length r)%nat ->
+  nth i (vscaleR k (pw_func r ps)) 0 = k * pw_fun ps (nth i r 0) /\
+  nth i (vscaleR k (pw_abel r ps)) 0 = Abel (fun t => k * pw_fun ps t) Rm (nth i r 0).
+Proof.
+  intros. rewrite !nth_vscale. split.
+  - rewrite (piecewise_func r Rm); auto.
+  - rewrite (piecewise_abel r Rm); auto. apply scalar_mul_abel.
+    apply pw_fun_ex_RInt; auto.
+Qed.
+
+(* ... and every piece *)
+Theorem scaled_piece : forall k ps j i, List.Forall (piece_ok Rm) ps -> (j < length ps)%nat -> (i < length r)%nat ->
+  let p := nth j ps {| q_rmin := 0; q_rmax := 0; q_c := []; q_r0 := 0; q_s := 1; q_red := false |} in
+  let F := polyfun (q_rmin p) (q_rmax p) (q_c p) (q_r0 p) (q_s p) in
+  nth i (fst (nth j (scaled_pieces k r ps) ([], []))) 0 = k * F (nth i r 0) /\
+  nth i (snd (nth j (scaled_pieces k r ps) ([], []))) 0 = Abel (fun t => k * F t) Rm (nth i r 0).
+Proof.
+  intros k ps j i Hok Hj Hi p F.
+  set (d := {| q_rmin := 0; q_rmax := 0; q_c := []; q_r0 := 0; q_s := 1; q_red := false |}) in *.
+  assert (Hp : piece_ok Rm p).
+  { rewrite Forall_forall in Hok. apply Hok. unfold p. apply nth_In. auto. }
+  destruct Hp as [Hs Hl].
+  unfold scaled_pieces.
+  rewrite (nth_map_any _ _ _ ps j d ([], [])) by auto.
+  fold p. cbn [fst snd]. rewrite !nth_vscale. split.
+  - rewrite poly_func_spec; auto.
+  - rewrite (poly_abel_spec r _ _ _ _ _ _ Hasc Hpos Hs Rm Hl); auto.
+    apply scalar_mul_abel. apply polyfun_ex_RInt; auto.
+Qed.
+End Scaled.
